@@ -141,7 +141,7 @@ def run_history(scaf, acc, steps, flags, facet, twin):
 
 
 def make_hist(scaf, k, facet, first=None, claims_only=False, twin=False):
-    nops = N_CLAIM if claims_only else len(OPS)
+    nops = (11 if k >= 5 else N_CLAIM) if claims_only else len(OPS)      # chains of 5: the 11 calls without an explicit comment list
     nfirst = len(first or ())
 
     def cell(acc: bool, o0: int, o1: int, o2: int, o3: int, o4: int, b0: bool, b1: bool, b2: bool, b3: bool, b4: bool) -> None:
@@ -181,8 +181,8 @@ for _facet, _prop in FACET_PROP.items():
             _reg(make_hist(_scaf, 4, _facet, first=(_o,)), {_prop: T}, 1500, 'hist/' + _facet,
                  'scaffold %r, every history of 4 steps over 16 calls starting with %s' % (_scaf, OPS[_o][0]), cost=700)
     # chains of 5 attribution-only calls on the transaction with meta, comment and postings (split by the first two calls)
-    for _a in (5, 6, 7, 8, 0, 1, 2, 3, 11, 12):
-        for _b in range(N_CLAIM):
+    for _a in (5, 6, 7, 8, 0, 1, 2, 3):
+        for _b in range(11):
             quick = _facet == 'text' and (_a, _b) in ((5, 6), (7, 8))
             _reg(make_hist('mp', 5, _facet, first=(_a, _b), claims_only=True), {_prop: Q if quick else T}, 1500, 'hist5/' + _facet,
                  'scaffold mp, every history of 5 attribution-only calls starting with %s, %s' % (OPS[_a][0], OPS[_b][0]), cost=500)
